@@ -85,13 +85,14 @@ func spec_nz(table [][]int, i int, k int) bool {
 //@     0 <= i2 && i2 < len(table) && perminv(i2) < idx4 && spec_nz(table, i2, k2) && row[i1]+k1 == row[i2]+k2 ==> i1 == i2
 //@ loop 4: invariant forall p int :: p > maxIndex ==> !entry[p]
 //@ loop 4: invariant idx4 == 0 ==> (forall p int :: !entry[p])
-//@ loop 4: invariant idx4 >= 1 ==> maxIndex < idx4*len(table[0])
+//@ loop 4: invariant maxIndex < idx4*len(table[0]) || maxIndex == 0
 //@ loop 5: invariant len(row) == len(table) && 0 <= row[i] && row[i] <= maxIndex+1 && (idx4 == 0 ==> row[i] == 0)
 //@ loop 5: invariant forall i2 int :: 0 <= i2 && i2 < len(table) && i2 != i ==> row[i2] == before(row[i2])
 //@ loop 5: decreases maxIndex + 1 - row[i]
 //@ loop 6: invariant row == before(row)
 //@ loop 6: invariant forall u int :: 0 <= u && u < idx6 ==> !entry[row[i]+rng6[u]]
 //@ loop 7: invariant len(entry) == before(len(entry)) && maxIndex >= before(maxIndex)
+//@ loop 7: invariant forall k int :: spec_nz(table, i, k) ==> !before(entry[row[i]+k])
 //@ loop 7: invariant forall u int :: 0 <= u && u < idx7 ==> entry[row[i]+rng7[u]] && row[i]+rng7[u] <= maxIndex
 //@ loop 7: invariant forall p int :: before(entry[p]) ==> entry[p]
 //@ loop 7: invariant forall p int :: entry[p] ==> before(entry[p]) || (exists u int :: 0 <= u && u < idx7 && p == row[i]+rng7[u])
